@@ -4,6 +4,7 @@ CONSTANTS
   Runtimes = {"threaded"}
   MaxReq = 1
   Kinds = {"close", "keep", "ws"}
+  SigTwice = FALSE
   Dev = {"JoinWorkers"}
 SPECIFICATION Spec
 PROPERTIES Live_RunReturns
